@@ -102,6 +102,17 @@ def m_keypool_lock():
             o._thread_lock = _NoLock()
 
 
+def m_claw_lock():
+    import sys as _sys
+    import beartype.claw._clawstate as m
+    old = m.claw_lock
+    new = _NoLock()
+    for mod in list(_sys.modules.values()):
+        d = getattr(mod, '__dict__', None)
+        if d and d.get('claw_lock') is old:
+            d['claw_lock'] = new
+
+
 def m_pathhook_not_removed():
     import beartype.claw._package.clawpkgcontext as m
     m.remove_beartype_pathhook_unless_packages_trie = lambda: None
@@ -147,6 +158,7 @@ MUTANTS = {
     'conf_lock_noop': ('C15', m_conf_lock, 'BeartypeConf memo lock removed'),
     'typehint_lock_noop': ('C15', m_typehint_lock, 'TypeHint cache lock removed'),
     'keypool_lock_noop': ('C15', m_keypool_lock, 'KeyPool lock removed'),
+    'claw_lock_noop': ('C15', m_claw_lock, 'claw registry lock removed'),
     'beartyping_keeps_path_hook': ('C06', m_pathhook_not_removed, 'beartyping() exit no longer removes the path hook'),
     'coerce_by_repr_only': ('C14', m_coerce_by_repr, 'hint coercion keyed by repr() only (the repaired defect re-introduced)'),
     'cache_marker_dropped': ('C16', m_marker_dropped, 'hooked bytecode cached without beartype\'s marker'),
